@@ -2933,8 +2933,15 @@ namespace bloch::compiler {
             declare(p->name, false, pt);
             p->accept(*this);
         }
-        if (node.body)
+        if (node.body) {
             node.body->accept(*this);
+            // as for top-level functions: a method with a body and a non-void result must
+            // contain a 'return' (a bodyless virtual declares no behaviour)
+            if ((ret.value != ValueType::Void || !ret.className.empty()) && !m_foundReturn) {
+                throw BlochError(ErrorCategory::Semantic, node.line, node.column,
+                                 "Non-void function must have a 'return' statement.");
+            }
+        }
     }
 
     void SemanticAnalyser::visit(ConstructorDeclaration& node) {
